@@ -23,7 +23,7 @@ ASSUMPTIONS = ["expected line = the 1-based line of the statement in the file th
 NONTRIVIAL_FLOOR = {"quick": 200, "thorough": 3000}
 
 # (backslash-newline outside a #define is not LPC in this lexer, so continuation lines appear only inside macros)
-FILLERS = ["blank", "blank3", "comment", "block_comment", "multiline_expr", "macro_multi", "long_stmt", "decl"]
+FILLERS = ["blank", "blank3", "comment", "block_comment", "multiline_expr", "macro_multi", "long_stmt", "decl", "string_cont", "long_string_cont", "text_block"]
 EDGES = ["direct", "direct", "call_other", "fp", "map"]
 SITES = ["main", "main", "include1", "include2", "include4", "inherit", "literal", "functional", "global_init"]
 
@@ -68,8 +68,14 @@ def filler(L, kind, inside, k):
         L.add("  acc = " + " + ".join("(acc ^ %d)" % (i + k) for i in range(60)) + ";")
     elif kind == "decl" and not inside:
         L.add("int gv%d = %d;" % (k, k))
-    elif kind == "string_cont" and inside:
-        L.add('  tmp = "abc" \\\n    "def";')
+    elif kind == "string_cont":
+        # a string literal continued over three lines with backslash-newline (inside and outside functions)
+        L.add(('  if (gzero) tmp = "abc\\\ndef\\\nghi";' if inside else 'string sc_%d = "abc\\\ndef\\\nghi";' % k))
+    elif kind == "long_string_cont":
+        # the same with more than 255 characters in front of the continuations (the lexer's second string path)
+        L.add(('  if (gzero) tmp = "' if inside else 'string lsc_%d = "' % k) + "x" * 270 + "\\\n" + "y" * 40 + "\\\n" + "z" * 10 + '";')
+    elif kind == "text_block" and inside:
+        L.add("  if (gzero) tmp = @END_T\na text block line\nanother one\nEND_T\n  ;")
     else:
         L.add("")
 
